@@ -244,6 +244,14 @@ func checkC04(c *ctx) {
 			return
 		}
 	}
+	// (thorough tier) more than 65536 segments created in one process while an early one stays alive
+	// with its dictionaries loaded: a later segment must still answer from its own data
+	if !c.Quick || os.Getenv("ZVERIF_MANYSEG") != "" {
+		if bad := manySegmentsInOneProcess(c); bad != "" {
+			c.Violation("C04 "+bad, false)
+			return
+		}
+	}
 	// doc-value regions starting at offsets whose uvarint encoding begins with particular byte pairs
 	// (0xff 0xff: offset = 0x3fff mod 0x4000; 0x80 0x80; 0xff 0x7f), reached by padding a stored field
 	if bad := dvOffsetResidues(c); bad != "" {
@@ -553,5 +561,39 @@ func dvOffsetResidues(c *ctx) string {
 		}
 		sb.Close()
 	}
+	return ""
+}
+
+func manySegmentsInOneProcess(c *ctx) string {
+	first := zh.GenBatch(c.R, zh.RandOpts(c.R, 6, "first"))
+	fsb, _, fspec, err := buildObs(c, first, 1026)
+	must(err)
+	defer fsb.Close()
+	tiny := zh.Batch{{Fields: []zh.Field{zh.IDField("t0"), {Name: "body", Len: 1, Toks: []zh.Tok{{Term: "x", Freq: 1}}}}}}
+	for k := 0; k < 65700; k++ {
+		s, _, err := zh.Build(tiny, 1026)
+		must(err)
+		if k%8192 == 0 {
+			if _, err := s.Dictionary("body"); err != nil {
+				return "Dictionary on a tiny segment: " + err.Error()
+			}
+		}
+		s.Close()
+		if k >= 65500 && k%20 == 0 {
+			b := zh.GenBatch(c.R, zh.RandOpts(c.R, 4, fmt.Sprintf("n%d", k)))
+			sb, _, spec, err := buildObs(c, b, 1026)
+			if err != nil {
+				return "build failed: " + err.Error()
+			}
+			if bad := persistEquiv(c, sb, spec, uint64(len(b)), 1026, false); bad != "" {
+				return fmt.Sprintf("after %d segments had been created in this process (the first one still alive with its dictionaries loaded): %s", k, clip(bad))
+			}
+			sb.Close()
+		}
+	}
+	if bad := persistEquiv(c, fsb, fspec, uint64(len(first)), 1026, false); bad != "" {
+		return "the first segment of the process after 65700 later ones: " + clip(bad)
+	}
+	c.Count("processes_with_more_than_65536_segments")
 	return ""
 }
